@@ -45,6 +45,30 @@ let parse_int_matrix s : int list list =
   if s = "-" || s = "" then [] else
   List.map (fun r -> List.map int_of_string (split ',' r)) (split '/' s)
 
+(* `m=@<v>` (with R rows of `cols` cells) is a constant matrix, `p=r:c:v;...` overrides cells *)
+let parse_matrix_fields (get_in : string -> string) (cols : int) : int list list =
+  let ms = get_in "m" in
+  let base =
+    if String.length ms > 0 && ms.[0] = '@' then begin
+      let v = int_of_string (String.sub ms 1 (String.length ms - 1)) in
+      let rows = int_of_string (get_in "R") in
+      let row = List.init cols (fun _ -> v) in
+      List.init rows (fun _ -> row)
+    end else parse_int_matrix ms in
+  match (try Some (get_in "p") with Not_found -> None) with
+  | None | Some "" -> base
+  | Some ps ->
+      let tbl = Hashtbl.create 16 in
+      List.iter (fun cell -> match List.map int_of_string (String.split_on_char ':' cell) with
+                 | [r; c; v] -> Hashtbl.replace tbl (r, c) v
+                 | _ -> failwith ("bad planted cell " ^ cell)) (split ';' ps);
+      let rows_hit = Hashtbl.create 16 in
+      Hashtbl.iter (fun (r, _) _ -> Hashtbl.replace rows_hit r ()) tbl;
+      List.mapi (fun r row ->
+        if Hashtbl.mem rows_hit r then
+          List.mapi (fun c x -> match Hashtbl.find_opt tbl (r, c) with Some v -> v | None -> x) row
+        else row) base
+
 (* ---- observations ---- *)
 type 'a ans = Panicked | Ans of 'a | Missing
 
@@ -323,7 +347,7 @@ let run_f32 get_in get cols =
   let e = f32_elt in
   let mi = int_of_string (get_in "mi") in
   let t = f32_of_string (get_in "t") in
-  let m = List.map (List.map e.of_int) (parse_int_matrix (get_in "m")) in
+  let m = List.map (List.map e.of_int) (parse_matrix_fields get_in cols) in
   let rows = List.length m in
   let domain = List.for_all (List.for_all e.in_domain) m && e.in_domain t in
   let min_ = n_of_int mi in
@@ -369,9 +393,11 @@ let run_f32 get_in get cols =
 
 (* ---------------- u8 ---------------- *)
 
+let z_small = Array.init 256 z_of_int
+let z_of_u8 i = if i >= 0 && i < 256 then z_small.(i) else z_of_int i
 let u8_elt : z elt = {
-  parse = (fun s -> z_of_int (int_of_string s));
-  of_int = z_of_int;
+  parse = (fun s -> z_of_u8 (int_of_string s));
+  of_int = z_of_u8;
   same = (fun a b -> int_of_z a = int_of_z b);
   show = (fun x -> string_of_int (int_of_z x));
   in_domain = (fun x -> let v = int_of_z x in v >= 0 && v <= 255);
@@ -387,7 +413,7 @@ let run_u8 get_in get =
   let cols = 32 in
   let mi = int_of_string (get_in "mi") in
   let t = z_of_int (int_of_string (get_in "t")) in
-  let m = List.map (List.map e.of_int) (parse_int_matrix (get_in "m")) in
+  let m = List.map (List.map e.of_int) (parse_matrix_fields get_in cols) in
   let rows = List.length m in
   let domain = true in
   let cn = nat_of_int cols in
@@ -399,14 +425,16 @@ let run_u8 get_in get =
   gmax := obs_opt e.parse (get "g.max");
   (* Pipeline::sse2() has no u8 kernels: default impls *)
   check_entry e m t domain get "s" max_gen am_gen th_model gmax;
-  check_entry e m t domain get "a"
-    (lazy (of_res (fun x -> x) (u8_max_avx2 m)))
-    (lazy (of_res conv_coord_opt (u8_argmax_avx2 m))) th_model gmax;
+  (* Pipeline::avx2() and the dispatcher's AVX2 arm run the same kernels (C07_source_pipeline_table,
+     C07_source_dispatch_table): evaluated once (the u8 arg-max model is quadratic in the rows) *)
+  let am_avx2 = lazy (u8_argmax_avx2 m) in
+  let mx_avx2 = lazy (of_res (fun x -> x) (u8_max_avx2 m)) in
+  check_entry e m t domain get "a" mx_avx2 (lazy (of_res conv_coord_opt (Lazy.force am_avx2))) th_model gmax;
   let th_ss = lazy (List.map int_of_n (u8_ss_threshold m t)) in
   List.iter (fun an ->
     let a = arm_of an in
-    let am = lazy (u8_dispatch_argmax a m) in
-    let mx = lazy (of_res (fun x -> x) (u8_dispatch_max a m)) in
+    let am = if a = AAvx2 then am_avx2 else lazy (u8_dispatch_argmax a m) in
+    let mx = if a = AAvx2 then mx_avx2 else lazy (of_res (fun x -> x) (u8_dispatch_max a m)) in
     check_entry e m t domain get ("d" ^ an) mx (lazy (of_res conv_coord_opt (Lazy.force am))) th_model gmax;
     check_striped e m t domain get ("s" ^ an) rows cols mx
       (lazy (of_res conv_n_opt (u8_ss_argmax (Lazy.force am) m))) th_ss
@@ -519,6 +547,10 @@ let () =
                  Sys.executable_name |]
               (Array.sub Sys.argv 1 (Array.length Sys.argv - 1)))
        with _ -> ())
+
+(* matrices of up to 2 * 10^6 cells: a large minor heap and a lazy major collector (the
+   default settings spend more than half of the time marking the same long lists) *)
+let () = Gc.set { (Gc.get ()) with Gc.minor_heap_size = 8 * 1024 * 1024; Gc.space_overhead = 1000 }
 
 let () =
   try
